@@ -65,6 +65,7 @@ type World struct {
 	Stalls  bool
 	stalled map[*simrt.Task]time.Time
 
+	LastQuiesceSeq  uint64
 	lastAdvanceStep int
 	BudgetExhausted bool
 	Sample          map[string]any
@@ -379,6 +380,10 @@ func (w *World) loop() {
 		}
 		opts := run
 		if len(opts) == 0 {
+			// a quiescent point: every corebgp goroutine sits in a state-level wait
+			w.mu.Lock()
+			w.LastQuiesceSeq = w.seq
+			w.mu.Unlock()
 			opts = quiesce
 		}
 		if len(opts) == 0 {
